@@ -39,8 +39,10 @@ type vecRev struct {
 	calls          int
 	chain          []*x509.Certificate
 	st             time.Time
-	errWithResults bool // the validator error comes TOGETHER with a (complete, well-formed) result vector
-	noSrv          bool // verdicts only: no per-server results at all (a validator need not consult servers to know)
+	errWithResults bool          // the validator error comes TOGETHER with a (complete, well-formed) result vector
+	noSrv          bool          // verdicts only: no per-server results at all (a validator need not consult servers to know)
+	shape          string        // "": one entry per certificate; nil-entry-first / nil-entry-last / empty / shorter / longer: a vector that does not report on every certificate
+	delay          time.Duration // answer only after this long (a slow responder)
 }
 
 func (r *vecRev) ValidateContext(ctx context.Context, o revocation.ValidateContextOptions) ([]*result.CertRevocationResult, error) {
@@ -64,6 +66,23 @@ func (r *vecRev) ValidateContext(ctx context.Context, o revocation.ValidateConte
 			sr = nil
 		}
 		out[i] = &result.CertRevocationResult{Result: v, RevocationMethod: m, ServerResults: sr}
+	}
+	if r.delay > 0 {
+		time.Sleep(r.delay)
+	}
+	switch r.shape {
+	case "nil-entry-first":
+		out[0] = nil
+	case "nil-entry-last":
+		out[len(out)-1] = nil
+	case "empty":
+		out = []*result.CertRevocationResult{}
+	case "nil-slice":
+		out = nil
+	case "shorter":
+		out = out[:len(out)-1]
+	case "longer":
+		out = append(out, &result.CertRevocationResult{Result: result.ResultOK})
 	}
 	if r.err {
 		return out, errors.New("scripted validator failure (with results)")
@@ -384,6 +403,122 @@ func main() {
 			r.Violation(sigm("action"), "revocation result carries the wrong action", wit)
 		}
 	}, r.PanicViolation("verifier.Verify"))
+	// ---- validators that do not report on every certificate, histories on one verifier, and a slow deprecated client
+	revOf := func(out *notation.VerificationOutcome) *notation.ValidationResult {
+		if out == nil {
+			return nil
+		}
+		for _, res := range out.VerificationResults {
+			if res.Type == trustpolicy.TypeRevocation {
+				return res
+			}
+		}
+		return nil
+	}
+	for n := 1; n <= 4; n++ {
+		set := sets[n-1]
+		okVec := make([]result.Result, n)
+		for k := range okVec {
+			okVec[k] = result.ResultOK
+		}
+		for fi, f := range formats {
+			for si, sc := range schemes {
+				storeType := map[string]string{"notary.x509": "ca", "notary.x509.signingAuthority": "signingAuthority"}[sc]
+				mts := lib.NewMemTS().Put(storeType+":x", set.chain[len(set.chain)-1])
+				L := lib.LevelMap{Auth: "enforce", TS: "enforce", Exp: "enforce", Rev: "enforce"}
+				for li, legacyIface := range []bool{false, true} {
+					mk := func(rv *vecRev) notation.Verifier {
+						opts := verifier.VerifierOptions{OCITrustPolicy: lib.OCIPolicy(L.SV(n+fi+si+li), []string{storeType + ":x"}, []string{"*"}), RevocationTimestampingValidator: lib.OKRev{}}
+						if legacyIface {
+							opts.RevocationClient = legacy{rv}
+						} else {
+							opts.RevocationCodeSigningValidator = rv
+						}
+						v, err := verifier.NewVerifierWithOptions(mts, opts)
+						if err != nil {
+							panic(err)
+						}
+						return v
+					}
+					vo := notation.VerifierVerifyOptions{ArtifactReference: "r.io/a@" + desc.Digest.String(), SignatureMediaType: f}
+					sigm := func(k string) map[string]string {
+						return map[string]string{"kind": k, "scheme": sc, "legacy": fmt.Sprint(legacyIface), "action": "enforce"}
+					}
+					// (a) every certificate reported OK - except that the vector does not cover every certificate
+					for _, shape := range []string{"nil-entry-first", "nil-entry-last", "empty", "nil-slice", "shorter", "longer"} {
+						if n == 1 && shape == "nil-entry-last" {
+							continue
+						}
+						rv := &vecRev{vec: okVec, shape: shape}
+						var out *notation.VerificationOutcome
+						var verr error
+						pv, stack := lib.Guard(func() { out, verr = mk(rv).Verify(context.Background(), desc, set.raw[f+"|"+sc], vo) })
+						r.Eval(fmt.Sprintf("incomplete-vector|%d|%s|%s|%v|%s", n, f, sc, legacyIface, shape))
+						r.Event("vectors-that-do-not-cover-every-certificate")
+						wit := map[string]any{"chain_length": n, "vector_shape": shape, "verify_error": fmt.Sprint(verr)}
+						if pv != nil {
+							wit["stack"] = string(stack)
+							r.Violation(map[string]string{"kind": "panic", "shape": shape}, fmt.Sprintf("verification panicked on a validator answer of shape %s for a chain of %d: %v", shape, n, pv), wit)
+							continue
+						}
+						if res := revOf(out); res == nil || res.Error == nil || verr == nil {
+							r.Violation(map[string]string{"kind": "aggregation", "scheme": sc, "legacy": fmt.Sprint(legacyIface), "action": "enforce", "shape": shape},
+								fmt.Sprintf("the validator answered with a vector of shape %s for a chain of %d certificates (so it did not report every certificate OK); revocation passed=%v, Verify accepted=%v", shape, n, res != nil && res.Error == nil, verr == nil), wit)
+						}
+					}
+					// (b) ONE verifier, the same signature twice: the first time every certificate is OK, then the leaf is revoked
+					rv := &vecRev{vec: append([]result.Result(nil), okVec...)}
+					v := mk(rv)
+					_, err1 := v.Verify(context.Background(), desc, set.raw[f+"|"+sc], vo)
+					rv.vec[0] = result.ResultRevoked
+					out2, err2 := v.Verify(context.Background(), desc, set.raw[f+"|"+sc], vo)
+					r.Eval(fmt.Sprintf("same-verifier-twice|%d|%s|%s|%v", n, f, sc, legacyIface))
+					r.Event("same-signature-twice-on-one-verifier")
+					if err1 != nil {
+						r.Violation(sigm("control-rejected"), fmt.Sprintf("all-OK vector rejected: %v", err1), nil)
+					}
+					if res := revOf(out2); rv.calls != 2 || res == nil || res.Error == nil || err2 == nil {
+						r.Violation(sigm("second-verification-not-checked"), fmt.Sprintf("one verifier verified the same signature twice; the second time the validator reports the leaf revoked: validator consulted %d times in all, second revocation result passed=%v, accepted=%v", rv.calls, res != nil && res.Error == nil, err2 == nil), nil)
+					}
+				}
+				// (c) the deprecated client answers slowly (revoked / unknown / an error) and the caller's context expires first:
+				// whenever the verification returns, the revocation validation has not passed
+				for vi, verdict := range []string{"revoked", "unknown", "error"} {
+					if (n+fi+si+vi)%2 == 1 {
+						continue
+					}
+					vec := append([]result.Result(nil), okVec...)
+					rv := &vecRev{vec: vec, delay: 250 * time.Millisecond}
+					switch verdict {
+					case "revoked":
+						vec[len(vec)-1] = result.ResultRevoked
+					case "unknown":
+						vec[0] = result.ResultUnknown
+					default:
+						rv.err = true
+					}
+					opts := verifier.VerifierOptions{OCITrustPolicy: lib.OCIPolicy(L.SV(n), []string{storeType + ":x"}, []string{"*"}), RevocationTimestampingValidator: lib.OKRev{}, RevocationClient: legacy{rv}}
+					v, err := verifier.NewVerifierWithOptions(mts, opts)
+					if err != nil {
+						panic(err)
+					}
+					cctx, cancel := context.WithTimeout(context.Background(), 40*time.Millisecond)
+					out, verr := v.Verify(cctx, desc, set.raw[f+"|"+sc], notation.VerifierVerifyOptions{ArtifactReference: "r.io/a@" + desc.Digest.String(), SignatureMediaType: f})
+					cancel()
+					r.Eval(fmt.Sprintf("slow-deprecated-client|%d|%s|%s|%s", n, f, sc, verdict))
+					r.Event("slow-deprecated-client-under-an-expiring-context")
+					if res := revOf(out); verdict == "revoked" && res != nil && res.Error != nil && !strings.Contains(strings.ToLower(res.Error.Error()), "revoked") {
+						r.Violation(map[string]string{"kind": "revoked-not-reported", "scheme": sc, "legacy": "true", "action": "enforce", "shape": "slow-client-revoked"},
+							fmt.Sprintf("the deprecated client reports a certificate revoked (after 250 ms; the caller's context expired after 40 ms): the validation failed as %q, not as revoked", res.Error), nil)
+					}
+					if res := revOf(out); verr == nil || (res != nil && res.Error == nil) {
+						r.Violation(map[string]string{"kind": "aggregation", "scheme": sc, "legacy": "true", "action": "enforce", "shape": "slow-client-" + verdict},
+							fmt.Sprintf("the deprecated client answers %s after 250 ms, the caller's context expires after 40 ms: revocation passed=%v, accepted=%v", verdict, res != nil && res.Error == nil, verr == nil), nil)
+					}
+				}
+			}
+		}
+	}
 	r.Exhaustive = true
 	r.RequireAtLeast("revocation-passed", 100)
 	r.RequireAtLeast("revocation-failed", 100)
